@@ -241,6 +241,57 @@ func evalDet(c *core.Ctx, cs *core.Case) {
 	}
 }
 
+// burstContent returns the i-th content of a burst: k characters that cost one DataMatrix codeword each
+// (or k bytes for QR byte mode), pseudo-random but fixed.
+func burstContent(k, i int) []byte {
+	const al = "ABCDEFGHIJKLMNOPQRSTUVWXYZabcdefghijklmnopqrstuvwxyz !#$%&()*+,-./:;<=>?@"
+	x := uint32(i)*2654435761 + uint32(k)*40503 + 12345
+	b := make([]byte, k)
+	for j := range b {
+		x = x*1664525 + 1013904223
+		b[j] = al[(x>>16)%uint32(len(al))]
+	}
+	return b
+}
+
+// burst: Ops = ["dm"|"qr"], P = [k, n, level, version]: the reference content, then n other contents of the same
+// symbol size (so the same generator polynomial is used over and over with varying data), then the
+// reference content again: same barcode as the first time, and the generator cache equals the
+// reference generators. Data-dependent damage to cached polynomials (an event with probability
+// ~1/field size per block) needs hundreds of blocks to show.
+func evalBurst(c *core.Ctx, cs *core.Case) {
+	k, n := prm(cs, 0), prm(cs, 1)
+	mk := func(i int) call {
+		if cs.Ops[0] == "dm" {
+			return call{"dm", burstContent(k, i), nil}
+		}
+		return call{"qr", burstContent(k, i), []int{prm(cs, 2), 3}}
+	}
+	ref := mk(0)
+	first, _ := ref.observeSafe()
+	if first == "error" || strings.HasPrefix(first, "panic") {
+		c.Fail("C15", cs, "%s: %s", ref.pretty(), first)
+		return
+	}
+	for i := 1; i <= n; i++ {
+		c.R.Transitions++
+		if o, _ := mk(i).observeSafe(); o == "error" || strings.HasPrefix(o, "panic") {
+			c.Fail("C15", cs, "%s: %s", mk(i).pretty(), o)
+			return
+		}
+	}
+	if again, _ := ref.observeSafe(); again != first {
+		c.Fail("C15", cs, "%s observes %s after %d other encodes of the same symbol size, before them %s", ref.pretty(), again, n, first)
+		return
+	}
+	if msg := rsCacheCheck(refField{0x11D, 256}, fieldSpec{0x11D, 256, 0}, qr.VerifCacheState()); msg != "" {
+		c.Fail("C15", cs, "qr generator cache after the burst: %s", msg)
+	}
+	if msg := rsCacheCheck(refField{0x12D, 256}, fieldSpec{0x12D, 256, 1}, datamatrix.VerifCacheState()); msg != "" {
+		c.Fail("C15", cs, "datamatrix generator cache after the burst: %s", msg)
+	}
+}
+
 // pairAlphabets returns, per family, the inputs whose ordered pairs are explored.
 func pairAlphabets(thorough bool) map[string][]call {
 	al := map[string][]call{}
@@ -429,6 +480,30 @@ func pairSweep(c *core.Ctx) {
 		Run(c, &core.Case{Fam: "pair", Ops: []string{p[1].String(), p[0].String()}})
 	}
 	c.R.Bound("pairs", fmt.Sprintf("all ordered pairs of inputs within each family alphabet (%d pairs over 10 encoder families and Scale) plus %d QR cross-mode payload-bit collision pairs in both orders; second observation, first observation and the first barcode re-observed after the second call are compared with fresh-process observations", nPairs, len(coll)))
+	// bursts: many different contents of one symbol size in one process (one generator polynomial, varying data)
+	var nBurst int64
+	for _, sz := range dmdec.Sizes {
+		blocks := (sz.DataCodewords + 174) / 175 // at most 175 data codewords per block
+		if blocks < 1 {
+			blocks = 1
+		}
+		n := pick(c, 2400, 8000) / blocks
+		nBurst++
+		Run(c, &core.Case{Fam: "burst", Ops: []string{"dm"}, P: []int{sz.DataCodewords, n}})
+	}
+	seenEC := map[int]bool{}
+	for v := 1; v <= 40; v++ {
+		for l := 0; l < 4; l++ {
+			_, _, _, _, ec := qrdec.BlockLayout(v, l)
+			if seenEC[ec] {
+				continue
+			}
+			seenEC[ec] = true
+			nBurst++
+			Run(c, &core.Case{Fam: "burst", Ops: []string{"qr"}, P: []int{qrCap(4, l, v), pick(c, 1200, 4000), l, v}})
+		}
+	}
+	c.R.Bound("bursts", fmt.Sprintf("%d bursts: for every DataMatrix size and every distinct QR check-codewords-per-block value, a reference content, then 1 200-8 000 block encodes of other contents of the same symbol size, then the reference content again (same barcode, generator caches equal the reference generators)", nBurst))
 	// determinism sweep: many short QR payloads, each repeated in place (equal-penalty masks, ties in searches)
 	reps := 6
 	var nDet int64
@@ -491,6 +566,7 @@ func init() {
 	Evaluators["snap"] = evalSnap
 	Evaluators["pair"] = evalPair
 	Evaluators["det"] = evalDet
+	Evaluators["burst"] = evalBurst
 }
 
 // seqPairs executes, for every ordered pair (a, b) of the family's pair alphabet, the family's
